@@ -227,6 +227,17 @@ def replay(rec):
         if c['call'] == 'setFixedBetas' and [float(v) for v in c['args'][0]] != fixed_init:
             out.append(dict(what='boundary fixed vector (get_value_c)', got=c['args'][0], want=fixed_init))
     boundary.reset()
+    # a history on ONE prepared expression (persistent id manager): a partial dictionary, then no dictionary, then the
+    # partial dictionary again -- each call overrides exactly the names IT is given, nothing is remembered
+    if partial:
+        f5, _ = build(rec)
+        f5.prepare(d, 0)
+        want_start = [fq(v) for v in rec['per_row_start']]
+        for label, dct, want in (('partial dict', partial, want_rows), ('empty dict after a partial one', {}, want_start), ('partial dict again', partial, want_rows)):
+            got = f5.get_value_c(database=d, betas=dct, prepare_ids=False)
+            n += 1
+            if any(not close(g, w, rel=1e-12) for g, w in zip(got, want)):
+                out.append(dict(what=f'history on a prepared expression: {label}', got=list(got), want=want, dict=dct))
     # change_init_values by name, then evaluation without a dictionary
     f3, _ = build(rec)
     f3.change_init_values(partial)
